@@ -41,6 +41,16 @@ CHECKS = {
         "null and absent attributes are the same metabook; titles inside a metabook are distinct; stdlib json encoder produces the spellings.",
         "DESIGN.md section 2 C13",
     ),
+    "C15": (
+        "exploration",
+        "exhaustive itertools.product over single-member archives (component sequences to depth 4/5 x separators x absolute/relative x "
+        "file/dir entry) + Hypothesis multi-member archives x destination spellings; oracle = file-system snapshot diff of a sandbox "
+        "root + independent lexical escape predicate",
+        "All single-member archives to depth 4 (thorough 5) over the stated component alphabet are extracted for real into a scratch "
+        "sandbox and the whole sandbox is diffed (exhaustive for that sub-space); multi-member archives and destination spellings are sampled.",
+        "POSIX path semantics ('\\' is not a separator on this platform); no symlink members; absolute names point into the scratch root only.",
+        "DESIGN.md section 2 C15",
+    ),
 }
 
 NOT_YET = {}
